@@ -19,12 +19,12 @@ pub fn def() -> PropDef {
             "Wsr_Zero", "Wsr_Equal", "Wsr_Extend", "Wsr_RoundAtLead", "Wsr_RoundLeftOfLead", "Wsr_RoundInside", "Wsr_Carry", "Wsr_CarryNewDigit",
             "WithScale_Zero", "WithScale_Up", "WithScale_Down", "WithScale_Equal",
         ],
-        rule: "exhaustive small scope: every unscaled value |n| < N (N = 2000 quick, 10^5 thorough; zero included, both signs) x scale -3..8 x every target scale within 4 of either end of the digit string x 7 modes, judged by an independent i128 model (result scale exact, integer = prescribed neighbour, extension exact, with_scale == Down, round(n) == default mode); all 4200 arguments of round_pair and round_u32 at positions 1..8; seeded decimals up to 3000 digits with tie / near-tie tails, all-nines carries, targets left of the leading digit, zeros. distinct = distinct (value, scale, target, mode) tuples (enumerated ones are distinct by construction); non-trivial = target scale below the input scale of a non-zero value (digits are actually discarded)",
+        rule: "exhaustive small scope: every unscaled value |n| < N (N = 10^4 quick, 10^5 thorough; zero included, both signs) x scale -3..8 x every target scale within 4 of either end of the digit string x 7 modes, judged by an independent i128 model (result scale exact, integer = prescribed neighbour, extension exact, with_scale == Down, round(n) == default mode); all 4200 arguments of round_pair and round_u32 at positions 1..8; seeded decimals up to 3000 digits with tie / near-tie tails, all-nines carries, targets left of the leading digit, zeros. distinct = distinct (value, scale, target, mode) tuples (enumerated ones are distinct by construction); non-trivial = target scale below the input scale of a non-zero value (digits are actually discarded)",
     }
 }
 
 fn small_bound(tier: Tier) -> i64 {
-    match tier { Tier::Quick => 2_000, Tier::Thorough => 100_000, Tier::Miri => 12 }
+    match tier { Tier::Quick => 10_000, Tier::Thorough => 100_000, Tier::Miri => 12 }
 }
 
 fn plan(tier: Tier) -> Vec<Unit> {
@@ -33,7 +33,7 @@ fn plan(tier: Tier) -> Vec<Unit> {
         Tier::Quick => {
             let mut v = crate::util::split_budget_param("small", 2 * n - 1, 100, n as i64);
             v.push(Unit { kind: "pair-table", start: 0, count: 1, param: 0 });
-            v.extend(crate::util::split_budget("random", 60_000, 1_000));
+            v.extend(crate::util::split_budget("random", 300_000, 3_000));
             v
         }
         Tier::Thorough => {
